@@ -340,7 +340,7 @@ inline int loop_mode() {
         run_case(program, cfg);
         auto& st = sim::stats();
         uint64_t ph = fnv(program.dump());
-        bool nontrivial = st.choice_points > 0 || st.spurious > 0 || st.clock_jumps > 0;
+        bool nontrivial = st.choice_points > 0 || st.spurious > 0 || st.clock_jumps > 0 || st.harness_nontrivial > 0;
         // R <idx> <program-hash> <schedule-hash> <event-hash> <steps> <nontrivial>
         printf("R %ld %s %s %s %u %d\n", idx, hex(ph).c_str(), hex(st.sched_hash).c_str(), hex(st.event_hash).c_str(), st.steps, (int)nontrivial);
         auto& a = g_agg;
